@@ -554,6 +554,9 @@ func (un *Unit) typeFacts(st *State, v string, t types.Type) string {
 	if _, ok := specialIntType(t); ok {
 		return "true"
 	}
+	if _, ok := t.(*types.TypeParam); ok {
+		return "true"
+	}
 	switch ut := t.Underlying().(type) {
 	case *types.Basic:
 		if ut.Info()&types.IsInteger != 0 && !un.u.bv {
